@@ -310,6 +310,12 @@ class Gen:
         r = self.r
         if self.allow_std and r.random() < 0.1:
             i = self.fresh("i")
+            if r.random() < 0.4:
+                # callback invoked by a builtin, with a default that refers to the passed parameter
+                dn = self.fresh("d")
+                return STD("makeArray", N(r.randrange(0, 4)),
+                           ("fn", [(i, None), (dn, ("bin", "+", V(i), N(10)))],
+                            ("bin", "+", V(dn), self.gen("num", d + 1, env + [(i, "num", None), (dn, "num", None)]))))
             return STD("makeArray", N(r.randrange(0, 4)), ("fn", [(i, None)], self.gen("num", d + 1, env + [(i, "num", None)])))
         return self.gen_arr_of(r.choice(["num", "num", "str", "any", "arr", "obj"]), d, env)
 
